@@ -17,7 +17,7 @@ LEVEL = "model_checking"
 LOCS = ("centre", "xlow", "ylow", "corners")
 
 
-def alphabet(base_non):
+def alphabet(base_non, extended=False):
     xl = float(base_non["nonorthogonal_xpoint_poloidal_spacing_length"])
     xr = base_non["nonorthogonal_xpoint_poloidal_spacing_range"]
     tr = base_non["nonorthogonal_target_all_poloidal_spacing_range"]
@@ -30,7 +30,18 @@ def alphabet(base_non):
     D = dict(nonorthogonal_spacing_method="poloidal_orthogonal_combined")
     # E: B plus keys that are not non-orthogonal settings: must be ignored or refused
     E = dict(B, xpoint_poloidal_spacing_length=0.123, ny_inner_divertor=9, orthogonal=True, y_boundary_guards=3)
-    return [A, B, C, D, E], ["A", "B", "C", "D", "E"], [A, B, C, D, B]
+    al, names, scratch = [A, B, C, D, E], ["A", "B", "C", "D", "E"], [A, B, C, D, B]
+    if extended:
+        # F: only the radial blending power changes (no length, range or method does)
+        F = dict(nonorthogonal_radial_range_power=1.0)
+        # G: an X-point range large enough for the perpendicular-spacing part to carry weight
+        # (default: 0.02 x length, weight ~0 on small grids) together with a changed X-point length
+        # (x3 and x2: most other combinations are refused by geometry()'s Jacobian consistency
+        # check on the minimal grids, from scratch as well as after a history)
+        G = dict(nonorthogonal_xpoint_poloidal_spacing_range=3.0 * float(xr),
+                 nonorthogonal_xpoint_poloidal_spacing_length=2.0 * xl)
+        al, names, scratch = al + [F, G], names + ["F", "G"], scratch + [F, G]
+    return al, names, scratch
 
 
 NONDEFAULT = dict(xpoint_poloidal_spacing_length=3.0, target_all_poloidal_spacing_length=0.8)
@@ -126,7 +137,9 @@ def run(ctx):
         if not ba.ok:
             ctx.log("start state %s/%s refused: %s" % (g, w, ba.meta.get("exc_msg")))
             continue
-        alpha, names, scratch_settings = alphabet(ba.side["eq"]["nonorthogonal_options"])
+        # quick: the two extra letters F, G on the first start state only
+        alpha, names, scratch_settings = alphabet(ba.side["eq"]["nonorthogonal_options"],
+                                                  extended=(ctx.tier != "quick" or (g, w, o) == st[0]))
         # one process per first transition: explores the subtree below it
         hist_members = []
         for k in range(len(alpha)):
@@ -185,6 +198,14 @@ def run(ctx):
                                       dict(start=label, history=hn, error=state["refused"]),
                                       replay=dict(start=label, history=hn))
                     continue
+                if state.get("geometry_error"):
+                    # geometry() refused this state explicitly: allowed only if the mesh built from
+                    # scratch with the same final settings is refused as well
+                    stats["states_refused_by_geometry"] = stats.get("states_refused_by_geometry", 0) + 1
+                    if sa.ok:
+                        ctx.violation("%s | final settings %s | geometry() fails after a history but succeeds on the mesh built from scratch" % (g, names[final]),
+                                      dict(start=label, history=hn, error=state["geometry_error"]),
+                                      replay=dict(start=label, history=hn))
                 if not sa.ok:
                     continue
                 # settings other than nonorthogonal_* unaffected
@@ -200,7 +221,8 @@ def run(ctx):
     ctx.set("traces_validated_against_impl", validated)
     ctx.set("depth", depth)
     ctx.set("alphabet", ["A default", "B xpoint length x0.4", "C target range x2, xpoint range x0.5, target length x0.6",
-                         "D poloidal_orthogonal_combined", "E = B + non-nonorthogonal keys"])
+                         "D poloidal_orthogonal_combined", "E = B + non-nonorthogonal keys",
+                         "F radial_range_power 1 (extended alphabet)", "G xpoint range x3 and length x2 (extended alphabet)"])
     for k, v in stats.items():
         ctx.set(k, v)
     ctx.set("exhaustive", True)
